@@ -38,6 +38,9 @@ def skeletons(tier):
                 for mem in (False, True):
                     out.append({"id": f"{w}-d{nd}-mem{int(mem)}", "host": w, "ndev": nd, "ranks": 1,
                                 "params": {"mem": mem, "dom": dom}})
+    for w, mem in (("LY", False), ("LY", True), ("Y", False)):
+        out.append({"id": f"{w}-d2-mem{int(mem)}-after-mem{int(not mem)}", "host": w, "ndev": 2, "ranks": 1,
+                    "params": {"mem": mem, "dom": dom, "before": [not mem]}})
     for pre in ("queue", "idle", "temporal"):
         out.append({"id": f"L-d1-after-{pre}", "host": "L", "ndev": 1, "ranks": 1, "params": {"mem": False, "dom": dom, "pre": [pre]}})
     # two ranks whose (symbolic) correlation ids may coincide: one rank's ids must not leak into the other's table
@@ -85,6 +88,13 @@ def run(ctx):
     mem = ctx.params["mem"]
     ranks = list(ctx.params.get("order", range(sk["ranks"])))
     precalls(ctx, ta)
+    for earlier in ctx.params.get("before") or []:
+        # earlier calls with other options on the same object (and in the same process): no option may stick
+        try:
+            ta.get_cuda_kernel_launch_stats(ranks=ranks, include_memory_events=earlier, visualize=False)
+        except Exception as ex:       # noqa: BLE001
+            if type(ex).__name__ in ("Unsupported", "HarnessError"):
+                raise
     res = ta.get_cuda_kernel_launch_stats(ranks=ranks, include_memory_events=mem, visualize=False)
     ctx.prove(sorted(res.keys()) == sorted(ranks), "one-table-per-rank", {"ranks": sorted(res.keys())})
     anydelay = False
